@@ -25,7 +25,7 @@ RULE = (
     "predicted to return a NEW object after a modification or eviction and one to return the SAME "
     "object; distinct by (config, operation list)."
 )
-RULE += ' added since: put_string / put_template over cached URIs and get_template of put URIs, has_template vs get_template agreement, postcondition on every put. has_template judged on its own (answers False, never raises a lookup error).'
+RULE += ' added since: put_string / put_template over cached URIs and get_template of put URIs, has_template vs get_template agreement, postcondition on every put. has_template judged on its own (answers False, never raises a lookup error). freshness through a referring template (include / inherit / namespace / include_file; modify, delete, rewrite, put_string).'
 ASSUMPTIONS = [
     "virtual clock: mako.codegen.time, mako.util.timeit and the mtime of written module files are "
     "driven by the harness (whole-second steps); sources get their mtime with os.utime",
@@ -35,6 +35,7 @@ ASSUMPTIONS = [
 ]
 MIN_NONTRIVIAL = 100
 REQUIRED_COUNTERS = ["gets", "same_object_hits", "reloads_after_modification", "lru_evictions_checked", "toplevel_misses", "vanished_file_exceptions", "failed_compiles_then_fixed"]
+REQUIRED_COUNTERS += ["referring_renders"]
 
 _st = {}
 URIS = ["/t0.html", "/t1.html", "/t2.html", "/sub/t3.html", "/sub/t4.html", "/t5.html", "/sub/deep/t6.html", "/t7.html"]
